@@ -17,6 +17,7 @@
    which evaluates the clauses on the recorded accept/reject history.  Only a
    clause found false by TLC on a real trace is a VIOLATION."""
 
+import copy
 import json
 import os
 import random
@@ -39,6 +40,7 @@ INVARIANT C12_AboveAllAccepted
 INVARIANT C12_InWindowUnseenAccepted
 INVARIANT C12_ForgeryNoEffect
 INVARIANT C12_UninitialisedNeedsEcho
+INVARIANT C12_ResponseNoEffect
 """
 
 EDGE_CFG = """SPECIFICATION EdgeSpec
@@ -73,6 +75,7 @@ CLAUSES = [
     "C12_InWindowUnseenAccepted",
     "C12_ForgeryNoEffect",
     "C12_UninitialisedNeedsEcho",
+    "C12_ResponseNoEffect",
 ]
 
 STALE_ECHO = b"\x5a" * 8
@@ -114,43 +117,42 @@ def projection(w):
 
 
 def start_record(s):
-    return {"k": "start", "W": s["W"], "init": bool(s["init"]), "n": -1, "auth": False, "echo": "none", "res": "start", "idx": -1, "seen": [], "why": ""}
+    return {"k": "start", "W": s["W"], "init": bool(s["init"]), "hasEcho": bool(s.get("hasEcho", True)), "n": -1, "auth": False, "echo": "none", "res": "start", "idx": -1, "seen": [], "why": ""}
 
 
 def run_direct(s):
-    """Drive aiocoap.oscore.ReplayWindow the way unprotect() uses it."""
+    """aiocoap.oscore.ReplayWindow on its own: is_valid / strike_out on an
+    INITIALISED window (request events only).  What happens around it -- the
+    uninitialised state, Echo recovery, responses, the order of checks in
+    unprotect() -- is deliberately not re-implemented here: those behaviours
+    are only ever driven through the real unprotect()."""
     oscore, _ = _env()
     calls = [0]
 
     def cb():
         calls[0] += 1
 
+    assert s["init"], "direct binding is for initialised windows only"
     w = oscore.ReplayWindow(s["W"], cb)
-    if s["init"]:
-        w.initialize_empty()
+    w.initialize_empty()
     trace = [start_record(s)]
     for ev in s["events"]:
         n, auth, echo = ev["n"], ev["auth"], ev["echo"]
+        if ev.get("k", "req") != "req":
+            continue
         why = ""
         try:
-            if not w.is_initialized():
-                if auth and echo == "fresh":
-                    w.initialize_from_freshlyseen(n)
-                    res = "acc"
-                else:
-                    res = "rej"
+            ok = w.is_valid(n)  # a forged message gets no further than this query
+            if ok and auth:
+                w.strike_out(n)
+                res = "acc"
             else:
-                ok = w.is_valid(n)
-                if ok and auth:
-                    w.strike_out(n)
-                    res = "acc"
-                else:
-                    res = "rej"
+                res = "rej"
         except Exception as e:  # e.g. strike_out refusing: counts as not accepted
             res = "rej"
             why = type(e).__name__
         idx, seen = projection(w)
-        trace.append({"k": "arr", "W": s["W"], "init": bool(s["init"]), "n": n, "auth": bool(auth), "echo": echo, "res": res, "idx": idx, "seen": seen, "why": why})
+        trace.append(dict(start_record(s), k="req", n=n, auth=bool(auth), echo=echo, res=res, idx=idx, seen=seen, why=why))
     return {"trace": trace, "meta": {"callbacks": calls[0], "unexpected": []}}
 
 
@@ -162,7 +164,7 @@ def run_unprotect(s):
 
     cls = _G["cls"]
     rng = random.Random(s.get("seed", 0))
-    echo_value = bytes(rng.getrandbits(8) for _ in range(8)) if s.get("echo_recovery", True) else None
+    echo_value = bytes(rng.getrandbits(8) for _ in range(8)) if s.get("hasEcho", True) else None
     client = oscore_env.new_context(oscore, b"\x01", b"", window=s["W"], cls=cls)
     server = oscore_env.new_context(oscore, b"", b"\x01", window=s["W"], initialized=bool(s["init"]), echo_recovery=echo_value, cls=cls)
     trace = [start_record(s)]
@@ -171,6 +173,37 @@ def run_unprotect(s):
     echo_exchanges = 0
     for i, ev in enumerate(s["events"]):
         n, auth, echo = ev["n"], ev["auth"], ev["echo"]
+        if ev.get("k", "req") == "resp":
+            # role reversal: the judged context sent a request; the peer answers with a response
+            # that carries its own Partial IV n (a notification, or the nonce could not be reused)
+            why = ""
+            try:
+                q, rid_s = server.protect(aiocoap.Message(code=aiocoap.GET, uri_path=("obs", str(i)), observe=0))
+                q.mtype, q.mid, q.token = aiocoap.NON, 0x4000 + i, b""
+                fresh_client = copy.copy(client)
+                fresh_client.recipient_replay_window = oscore.ReplayWindow(s["W"], lambda: None)
+                fresh_client.recipient_replay_window.initialize_empty()
+                _p, rid_c = fresh_client.unprotect(aiocoap.Message.decode(q.encode()))
+                rid_c.get_reusable_kid_and_piv()  # not the first response: own Partial IV
+                client.sender_sequence_number = n
+                note = aiocoap.Message(code=aiocoap.CONTENT, payload=b"n%d" % n, observe=i + 1)
+                ro, _ = client.protect(note, rid_c)
+                ro.mtype, ro.mid, ro.token = aiocoap.NON, 0x5000 + i, b""
+            except Exception as e:
+                raise MachineryError("could not produce a response with its own Partial IV: %r" % (e,))
+            try:
+                plain, _rid = server.unprotect(aiocoap.Message.decode(ro.encode()), rid_s)
+                res = "acc"
+                if plain.payload != note.payload:
+                    unexpected.append("event %d: response unprotected to a different payload" % i)
+            except oscore.ProtectionInvalid as e:
+                res, why = "rej", type(e).__name__
+            except Exception as e:
+                res, why = "rej", type(e).__name__
+                unexpected.append("event %d (response, n=%d): unprotect raised %r" % (i, n, e))
+            idx, seen = projection(server.recipient_replay_window)
+            trace.append(dict(start_record(s), k="resp", n=n, auth=True, echo="none", res=res, idx=idx, seen=seen, why=why))
+            continue
         msg = aiocoap.Message(code=aiocoap.POST, uri_path=("r", str(i)), payload=b"p%d" % n)
         if echo == "stale":
             msg.opt.echo = STALE_ECHO
@@ -212,7 +245,7 @@ def run_unprotect(s):
             res, why = "rej", type(e).__name__
             unexpected.append("event %d (n=%d auth=%s): unprotect raised %r" % (i, n, auth, e))
         idx, seen = projection(server.recipient_replay_window)
-        trace.append({"k": "arr", "W": s["W"], "init": bool(s["init"]), "n": n, "auth": bool(auth), "echo": echo, "res": res, "idx": idx, "seen": seen, "why": why})
+        trace.append(dict(start_record(s), k="req", n=n, auth=bool(auth), echo=echo, res=res, idx=idx, seen=seen, why=why))
     return {"trace": trace, "meta": {"unexpected": unexpected, "echo_exchanges": echo_exchanges}}
 
 
@@ -241,7 +274,7 @@ def run_all(scheds):
 
 # -- spec -> code ---------------------------------------------------------------
 def ev_of(e):
-    return {"n": e["n"], "auth": bool(e["auth"]), "echo": e["echo"]}
+    return {"k": e["k"], "n": e["n"], "auth": bool(e["auth"]), "echo": e["echo"]}
 
 
 def exp_of(e):
@@ -251,10 +284,10 @@ def exp_of(e):
 def schedules_from_edges(vals):
     out = []
     for v in vals:
-        _, w, init, hist, e = v
+        _, w, init, has_echo, hist, e = v
         evs = [ev_of(x) for x in hist] + [ev_of(e)]
         exp = [exp_of(x) for x in hist] + [exp_of(e)]
-        out.append(({"W": w, "init": bool(init), "events": evs, "origin": "edge"}, exp))
+        out.append(({"W": w, "init": bool(init), "hasEcho": bool(has_echo), "events": evs, "origin": "edge"}, exp))
     return out
 
 
@@ -270,12 +303,14 @@ def schedules_from_behaviours(behs):
             evs.append(ev_of(a))
             exp.append(exp_of(a))
         if evs:
-            out.append(({"W": o["W"], "init": bool(o["init"]), "events": evs, "origin": "sim"}, exp))
+            out.append(({"W": o["W"], "init": bool(o["init"]), "hasEcho": bool(o["hasEcho"]), "events": evs, "origin": "sim"}, exp))
     return out
 
 
 def compare(exp, trace):
     """First difference between the model's prediction and the recorded trace."""
+    if len(exp) != len(trace) - 1:
+        return None  # (direct binding: request events only; compared by TLC on the recorded trace)
     for i, (x, t) in enumerate(zip(exp, trace[1:])):
         if x["res"] != t["res"]:
             return "event %d (n=%d auth=%s echo=%s): model %s, implementation %s (%s)" % (i, t["n"], t["auth"], t["echo"], x["res"], t["res"], t["why"])
@@ -287,12 +322,14 @@ def compare(exp, trace):
 # -- random real-scale schedules ---------------------------------------------------
 def random_schedule(rng, binding):
     W = rng.choice([32, 32, 32, 32, 64, 7, 1, 2, 100, 33])
-    init = rng.random() < 0.7
+    init = rng.random() < 0.7 if binding == "unprotect" else True
+    has_echo = rng.random() < 0.75  # independent of the start state
     length = rng.randint(20, 70)
     front = rng.choice([0, 0, 1, rng.randint(0, 60)])
     sent = []
     evs = []
     pending_genuine = []
+    used_by_resp = set()
     have_init = init
     for _ in range(length):
         if not have_init and rng.random() < 0.6:
@@ -301,7 +338,18 @@ def random_schedule(rng, binding):
             echo = "fresh"
         else:
             echo = rng.choice(["none"] * 8 + ["stale", "fresh"])
-        kind = rng.choice(["new", "new", "new", "skip", "jump", "replay", "old", "below", "edge", "genuine"])
+        kind = rng.choice(["new", "new", "new", "skip", "jump", "replay", "old", "below", "edge", "genuine", "resp"])
+        if kind == "resp" and binding == "unprotect":
+            # a (late) response of the peer with its own Partial IV: below, inside or above the window.
+            # The peer numbers requests and responses from one counter: never a number a request uses.
+            m = max(0, front + rng.choice([-W - 3, -W, -W // 2 - 1, -2, -1, 1, 2, W + 5]))
+            if m not in sent and m not in pending_genuine and all(x["n"] != m for x in evs):
+                evs.append({"k": "resp", "n": m, "auth": True, "echo": "none"})
+                used_by_resp.add(m)
+                if not have_init and has_echo:
+                    have_init = True
+                    front = max(front, m)
+            continue
         if kind == "genuine" and pending_genuine:
             n = pending_genuine.pop(rng.randrange(len(pending_genuine)))
         elif kind in ("new", "genuine"):
@@ -321,14 +369,16 @@ def random_schedule(rng, binding):
             n = max(0, front - W - rng.randint(0, 5))
         else:  # exactly at the window edges
             n = max(0, front - W + rng.choice([-1, 0, 1]))
+        if n in used_by_resp:
+            continue
         auth = rng.random() >= 0.25
-        e = {"n": n, "auth": auth, "echo": echo}
+        e = {"k": "req", "n": n, "auth": auth, "echo": echo}
         if not auth:
             e["flip"] = rng.randint(0, 200)
             pending_genuine.append(n)
         else:
             sent.append(n)
-            if echo == "fresh":
+            if echo == "fresh" and has_echo:
                 have_init = True
         evs.append(e)
     return {
@@ -338,30 +388,50 @@ def random_schedule(rng, binding):
         "events": evs,
         "origin": "random",
         "seed": rng.randint(0, 2**31),
-        "echo_recovery": True if not init else rng.random() < 0.8,
+        "hasEcho": has_echo,
     }
 
 
-def sig_of(clause, s, upto):
-    evs = s["events"][: max(1, upto)]
-    body = ",".join("%d%s%s" % (e["n"], "" if e["auth"] else "x", {"none": "", "stale": "s", "fresh": "e"}[e["echo"]]) for e in evs[-12:])
-    return "%s|%s|W=%d|%s|%s" % (clause, s["binding"], s["W"], "init" if s["init"] else "uninit", body)
+def sig_of(clause, s, upto, trace=None):
+    """clause + configuration + the kind of event at which the clause is false
+    (the history that leads there is in the replay file)."""
+    start = ("init" if s["init"] else "uninit") + ("" if s.get("hasEcho", True) else "-noecho")
+    if trace is not None and 0 < upto < len(trace):
+        e = trace[upto]
+        what = "%s%s%s->%s" % ("response" if e["k"] == "resp" else "request", "" if e["auth"] else "-forged", {"none": "", "stale": "-staleecho", "fresh": "-freshecho"}[e["echo"]], e["res"])
+    else:
+        what = "?"
+    return "%s|%s|%s|%s" % (clause, s["binding"], start, what)
 
 
 def stats_of(trace, counters):
     """Which situations of the statement the recorded traces exercised (statistics only)."""
     W = trace[0]["W"]
     init = trace[0]["init"]
+    has_echo = trace[0]["hasEcho"]
     acc, forged = set(), set()
     floor = 0
     for e in trace[1:]:
         n = e["n"]
+        if e["k"] == "resp":
+            if init:
+                counters["response_on_initialised_window"] += 1
+                if acc and n < max(acc):
+                    counters["late_response_below_accepted_requests"] += 1
+            elif has_echo:
+                counters["response_initialises_window"] += 1
+                init, floor = True, n
+            else:
+                counters["uninit_without_echo_recovery"] += 1
+            continue
         if not e["auth"]:
             counters["forgery"] += 1
             forged.add(n)
             continue
         if not init:
             counters["uninit_" + e["echo"]] += 1
+            if not has_echo:
+                counters["uninit_without_echo_recovery"] += 1
         elif n in acc:
             counters["replay_of_accepted"] += 1
         elif n < floor:
@@ -391,7 +461,7 @@ def validate_and_report(rep, wd, scheds, results, label):
             at = v["at"][clause]
             rep.violation(
                 clause,
-                sig_of(clause, s, at),
+                sig_of(clause, s, at, res["trace"]),
                 "clause %s false at event %d of a recorded %s execution (W=%d, %s start): %s"
                 % (clause, at, s["binding"], s["W"], "initialised" if s["init"] else "uninitialised", json.dumps(res["trace"][max(1, at - 3) : at + 1])),
                 {"schedule": s, "trace": res["trace"], "firstBad": at},
@@ -425,9 +495,16 @@ def work(rep, args):
     nsim = 400 if quick else 4000
     nrand = 300 if quick else 6000
     with tlc.Workdir() as wd:
-        wd.write("RW_mc.cfg", MC_CFG % {"maxlen": 6 if quick else 7})
-        mc = tlc.run(wd, "ReplayWindow.tla", "RW_mc.cfg", timeout=1500 if quick else 3000)
-        tlc.need_ok_run(mc, "ReplayWindow model check")
+        wd.write("RW_mc.cfg", MC_CFG % {"maxlen": 5 if quick else 6})
+        import threading
+
+        box = {}
+
+        def run_mc():  # the exhaustive run proceeds while edges and behaviours are generated and driven
+            box["mc"] = tlc.run(wd, "ReplayWindow.tla", "RW_mc.cfg", timeout=1800 if quick else 3400, workers=max(2, (os.cpu_count() or 4) - 4))
+
+        th = threading.Thread(target=run_mc)
+        th.start()
         wd.write("RW_edge.cfg", EDGE_CFG)
         edges = tlc.run(wd, "ReplayWindow.tla", "RW_edge.cfg", workers=1, timeout=1200)
         tlc.need_ok_run(edges, "ReplayWindow edge enumeration")
@@ -440,26 +517,28 @@ def work(rep, args):
         sim = tlc.run(wd, "ReplayWindow.tla", "RW_sim.cfg", workers=1, timeout=600, simulate="file=%s/tr,num=%d" % (simdir, nsim), depth=18, seed=args.seed + 1)
         tlc.need_ok_run(sim, "ReplayWindow simulation")
         behaviours = tlc.read_sim_traces(os.path.join(simdir, "tr"))
-        if mc.error_trace:
-            behaviours.append(mc.error_trace)
 
         model = schedules_from_edges(edge_vals)
         if quick:
-            # all edges through ReplayWindow directly; a seeded half through the (slower) full unprotect
+            # initialised starts: all edges through ReplayWindow directly and a seeded half through the (slower)
+            # full unprotect; uninitialised starts, responses: always through unprotect (nothing re-implemented)
             sample = set(rng.sample(range(len(model)), len(model) // 2))
         else:
             sample = set(range(len(model)))
         model += schedules_from_behaviours(behaviours)
         scheds, expected = [], []
         for i, (s, exp) in enumerate(model):
-            scheds.append(dict(s, binding="direct"))
-            expected.append(exp)
-            if s["origin"] != "edge" or i in sample:
+            only_requests = all(e["k"] == "req" for e in s["events"])
+            if s["init"] and only_requests:
+                scheds.append(dict(s, binding="direct"))
+                expected.append(exp)
+            if s["origin"] != "edge" or i in sample or not s["init"] or not only_requests:
                 scheds.append(dict(s, binding="unprotect", seed=i))
                 expected.append(exp)
         n_model = len(scheds)
         for i in range(nrand):
             scheds.append(random_schedule(rng, "unprotect" if i % 4 else "direct"))
+        scheds = [x for x in scheds if x["binding"] == "unprotect" or x["events"]]
         results = run_all(scheds)
         for s, res in zip(scheds, results):
             if "error" in res:
@@ -480,11 +559,23 @@ def work(rep, args):
                     rep.add_drift("%s binding, W=%d: %s" % (s["binding"], s["W"], u))
         # code -> spec
         validated, ndrift_tr = validate_and_report(rep, wd, scheds, results, "trace validation")
+        th.join()
+        mc = box.get("mc")
+        if mc is None:
+            raise MachineryError("ReplayWindow model check did not run")
+        tlc.need_ok_run(mc, "ReplayWindow model check")
+        if mc.error_trace:
+            cex = [dict(x, binding="unprotect", seed=1) for x, _e in schedules_from_behaviours([mc.error_trace])]
+            cres = run_all(cex)
+            for s_, r_ in zip(cex, cres):
+                if "error" in r_:
+                    raise MachineryError("driver failed on counterexample\n%s" % r_["error"])
+            validate_and_report(rep, wd, cex, cres, "counterexample")
         if mc.violated:
             rep.notes.append("model check reported %s; counterexample replayed on the implementation" % mc.violated)
             if not rep.violations:
                 raise MachineryError("ReplayWindow model violates %s but the counterexample does not reproduce on the implementation" % mc.violated)
-        counters = {k: 0 for k in ("forgery", "genuine_after_forgery", "replay_of_accepted", "below_window", "above_all", "jump_beyond_window", "in_window_unseen", "uninit_none", "uninit_stale", "uninit_fresh")}
+        counters = {k: 0 for k in ("forgery", "genuine_after_forgery", "replay_of_accepted", "below_window", "above_all", "jump_beyond_window", "in_window_unseen", "uninit_none", "uninit_stale", "uninit_fresh", "uninit_without_echo_recovery", "response_on_initialised_window", "late_response_below_accepted_requests", "response_initialises_window")}
         noproj = 0
         shapes = set()
         for res in results:
@@ -503,7 +594,7 @@ def work(rep, args):
                 "states": mc.distinct,
                 "transitions": mc.generated,
                 "depth": mc.depth,
-                "mc_constants": {"Ws": [1, 2, 3, 4], "MaxN": 7, "MaxLen": 6 if quick else 7, "start": ["initialised", "uninitialised"]},
+                "mc_constants": {"Ws": [1, 2, 3, 4], "MaxN": 7, "MaxLen": 5 if quick else 6, "start": ["initialised", "uninitialised"], "echo_recovery": ["configured", "None"], "events": ["request (authentic/forged, Echo none/stale/fresh)", "response with own Partial IV"]},
                 "exhaustive": True,
                 "graph_edges": len(edge_vals),
                 "graph_states": edges.distinct,
@@ -530,7 +621,8 @@ def work(rep, args):
         "in-memory security contexts (real CanProtect/CanUnprotect/SecurityContextUtils code, nothing persisted) as in tests/test_oscore.py",
         "forgery = genuine request with one corrupted ciphertext/tag bit (valid-looking partial IV); AEAD assumed to reject it",
         "exhaustive for W in 1..4, numbers 0..7, <= 6 arrivals; larger windows (default 32) by random runs validated by TLC",
-        "the ReplayWindow-direct binding calls is_initialized/is_valid/strike_out/initialize_from_freshlyseen in the order unprotect() does",
+        "the ReplayWindow-direct binding only queries is_valid and calls strike_out for authentic valid numbers on an initialised window; the uninitialised state, Echo recovery, responses and the order of checks are driven through the real unprotect() only",
+        "when Echo recovery is configured an uninitialised window may be initialised from a response to a request this process sent (unprotect's try_initialize): the monitor follows the code there and treats it like an Echo round trip",
     ]
 
 
